@@ -198,6 +198,16 @@ func generateHarnesses(repo, prop, dir string) error {
 		fmt.Fprintf(&b, "\tcase *%s:\n\t\to, ok1 := old.(*%s)\n\t\tf, ok2 := from.(*%s)\n\t\tvpAssert(prefix+\"/same-go-type\", ok1 && ok2)\n\t\tif ok1 && ok2 {\n\t\t\tvpMerge_%s(prefix, x, o, f, merged)\n\t\t}\n", s.Name, s.Name, s.Name, s.Name)
 	}
 	b.WriteString("\tdefault:\n\t\tvpAssert(prefix+\"/known-type\", false)\n\t}\n}\n\n")
+	b.WriteString("// vpMapItemFields applies fn to every single-item property of a vocabulary struct.\nfunc vpMapItemFields(it Item, fn func(name string, v Item) Item) {\n\tswitch x := it.(type) {\n")
+	for _, s := range vocab {
+		fmt.Fprintf(&b, "\tcase *%s:\n", s.Name)
+		for _, f := range s.Fields {
+			if f.Kind == "Item" {
+				fmt.Fprintf(&b, "\t\tx.%s = fn(%q, x.%s)\n", f.Name, f.Name, f.Name)
+			}
+		}
+	}
+	b.WriteString("\t}\n}\n\n")
 	b.WriteString("// vpCloneItem makes a shallow copy of a vocabulary struct behind a pointer.\nfunc vpCloneItem(a Item) Item {\n\tswitch x := a.(type) {\n")
 	for _, s := range vocab {
 		fmt.Fprintf(&b, "\tcase *%s:\n\t\tc := *x\n\t\treturn &c\n", s.Name)
